@@ -412,3 +412,13 @@ _upd('C07',
      'OPEN FINDING: for add_sum_n_weighted_bits in XAIG the documented 4.5n-2m is false (profile 4,4,3,3,3,...: half a gate per level too '
      'many; n=35, m=13: 132 gates) — shown on the code by the search and on the model by a kernel-evaluated run (thorough tier); the theorem '
      'proved is 4.5n-1.5m. Termination within the model fuel is by correspondence.')
+_upd('C08',
+     'Through the program logic of C07 (frame theorem for every mode): ALL six multiplication modes — add_mul (DEFAULT), add_mul_alter, '
+     'add_mul_dadda, both Karatsuba variants (induction over the recursion for any base multiplier meeting a spec), add_mul_pow2_m1, '
+     'add_mul_wallace (placeholder matrices as numbers, per-round conservation modulo 2^(n+m), gap logic of the final adder; every drawn '
+     'label differs from the placeholder string) — and both squarers return exactly a*b resp. x^2 for all widths, both endiannesses and '
+     'operands that are arbitrary host gates; result widths proved for DEFAULT (the XAIG weighted loop outputs exactly the levels its level '
+     'profile predicts; for the partial-product profile the carries stay between 1 and the previous level\'s height, so n+m levels, n+m-1 '
+     'when one width is 1), Dadda, Karatsuba, 2^k-1 and the squarers. All modes are modelled one-to-one and compared gate for gate (uuid '
+     'pinned); the search checks values and widths on the real generators, incl. generate_mul with every MulMode.',
+     'Result width of Wallace is checked on the real generators, not proved (partial).')
